@@ -216,7 +216,11 @@ package interval
 //@ func (IntRange).mulLsh
 //@   prop C06
 //@   requires implies(shift && !emptyR(x), forallm(v, implies(inR(y, v), v >= 0)))
-//@   ensures[contains] forallm(a, forallm(b, implies(old(inR(x, a)) && old(inR(y, b)), inR(z, ite(shift, a * pow2(b), a * b)))))
+//@   ensures[contains.nn] forallm(a, forallm(b, implies(a < 0 && b < 0 && old(inR(x, a)) && old(inR(y, b)), inR(z, ite(shift, a * pow2(b), a * b)))))
+//@   ensures[contains.np] forallm(a, forallm(b, implies(a < 0 && b > 0 && old(inR(x, a)) && old(inR(y, b)), inR(z, ite(shift, a * pow2(b), a * b)))))
+//@   ensures[contains.pn] forallm(a, forallm(b, implies(a > 0 && b < 0 && old(inR(x, a)) && old(inR(y, b)), inR(z, ite(shift, a * pow2(b), a * b)))))
+//@   ensures[contains.pp] forallm(a, forallm(b, implies(a > 0 && b > 0 && old(inR(x, a)) && old(inR(y, b)), inR(z, ite(shift, a * pow2(b), a * b)))))
+//@   ensures[contains.z] forallm(a, forallm(b, implies((a == 0 || b == 0) && old(inR(x, a)) && old(inR(y, b)), inR(z, ite(shift, a * pow2(b), a * b)))))
 //@   ensures[empty] implies(old(emptyR(x)) || old(emptyR(y)), emptyR(z))
 //@   ensures[storage] freshR(z)
 
@@ -243,7 +247,11 @@ package interval
 //@ func (IntRange).TryQuo
 //@   prop C06
 //@   ensures[fails] ok == !(!old(emptyR(x)) && !old(emptyR(y)) && old(inRm(y, 0)))
-//@   ensures[contains] implies(ok, forallm(a, forallm(b, implies(old(inR(x, a)) && old(inR(y, b)), inR(z, a / b)))))
+//@   ensures[contains.nn@thorough] implies(ok, forallm(a, forallm(b, implies(a < 0 && b < 0 && old(inR(x, a)) && old(inR(y, b)), inR(z, a / b)))))
+//@   ensures[contains.np@thorough] implies(ok, forallm(a, forallm(b, implies(a < 0 && b > 0 && old(inR(x, a)) && old(inR(y, b)), inR(z, a / b)))))
+//@   ensures[contains.pn@thorough] implies(ok, forallm(a, forallm(b, implies(a > 0 && b < 0 && old(inR(x, a)) && old(inR(y, b)), inR(z, a / b)))))
+//@   ensures[contains.pp@thorough] implies(ok, forallm(a, forallm(b, implies(a > 0 && b > 0 && old(inR(x, a)) && old(inR(y, b)), inR(z, a / b)))))
+//@   ensures[contains.z] implies(ok, forallm(b, implies(old(inR(x, 0)) && old(inR(y, b)), inR(z, 0))))
 //@   ensures[empty] implies(old(emptyR(x)) || old(emptyR(y)), emptyR(z))
 //@   ensures[storage] freshR(z)
 
@@ -251,7 +259,9 @@ package interval
 //@ func (IntRange).TryRsh
 //@   prop C06
 //@   ensures[fails] ok == !(!old(emptyR(x)) && !old(emptyR(y)) && existsm(v, v < 0 && old(inRm(y, v))))
-//@   ensures[contains] implies(ok, forallm(a, forallm(b, implies(old(inR(x, a)) && old(inR(y, b)), inR(z, ediv(a, pow2(b)))))))
+//@   ensures[contains.n@thorough] implies(ok, forallm(a, forallm(b, implies(a < 0 && old(inR(x, a)) && old(inR(y, b)), inR(z, ediv(a, pow2(b)))))))
+//@   ensures[contains.p@thorough] implies(ok, forallm(a, forallm(b, implies(a > 0 && old(inR(x, a)) && old(inR(y, b)), inR(z, ediv(a, pow2(b)))))))
+//@   ensures[contains.z] implies(ok, forallm(b, implies(old(inR(x, 0)) && old(inR(y, b)), inR(z, 0))))
 //@   ensures[empty] implies(old(emptyR(x)) || old(emptyR(y)), emptyR(z))
 //@   ensures[storage] freshR(z)
 
